@@ -10,7 +10,7 @@
      0 <= usage <= max_amount = 2^62, 0 <= guaranteed cpu request <= 2^62,
      at most 10 samples in the queue (proved of the queue, not assumed). *)
 From Coq Require Import ZArith List Bool Permutation Sorted Lia.
-From V Require Import C19.Model C19.Laws C19.Lemmas C19.EvictLemmas.
+From V Require Import C19.Model C19.Laws C19.Lemmas C19.EvictLemmas C19.Reporter C19.ReporterLaws C19.ReporterLemmas.
 Import ListNotations.
 Open Scope Z_scope.
 
@@ -182,6 +182,144 @@ Theorem C19_law_evict_sound : forall res pods calls after,
 Proof. exact law_evict_sound. Qed.
 Print Assumptions C19_law_evict_sound.
 
+(* ==== the value ON THE NODE OBJECT (reporter, Cleanup, whole pipeline) ====
+   The reporter writes the event unrounded into the extended resources
+   kubernetes.io/batch-cpu / batch-memory of Status.Allocatable and
+   Status.Capacity (one optional integer per resource in the model). *)
+
+(* what UpdateOverSubscription leaves on the node reads back as exactly the event *)
+Theorem C19_node_write_is_exact : forall n ev, cur_of (write_ext n ev) = ev.
+Proof. exact write_ext_cur. Qed.
+Print Assumptions C19_node_write_is_exact.
+
+(* ALL histories of sampling / report / reconfiguration / restart / administrator
+   steps, every prefix: the amounts on the node are absent or within
+   [0, Rmax% of the largest allocatable], Rmax the largest ratio used *)
+Theorem C19_node_bounded_after_every_prefix : forall pods Rmax Ac Am,
+  0 <= Rmax <= 100 -> 0 <= Ac <= max_alloc -> 0 <= Am <= max_alloc ->
+  (forall policy, 0 <= guaranteed_cpu_request policy pods <= max_amount) ->
+  forall ratio n ops,
+  0 <= ratio <= Rmax -> 0 <= n_acpu n <= Ac -> 0 <= n_amem n <= Am ->
+  node_bounded Rmax Ac Am n -> Forall (pop_ok Rmax Ac Am) ops ->
+  Forall (fun on : pout * node => node_bounded Rmax Ac Am (snd on)) (snd (prun pods (pinit ratio n) ops)) /\
+  pinv Rmax Ac Am (fst (prun pods (pinit ratio n) ops)).
+Proof. exact prun_node_bounded. Qed.
+Print Assumptions C19_node_bounded_after_every_prefix.
+
+(* the invariant is kept by every single step, so the per-step theorems below
+   apply after any prefix *)
+Theorem C19_pipeline_invariant_step : forall pods Rmax Ac Am,
+  0 <= Rmax <= 100 -> 0 <= Ac <= max_alloc -> 0 <= Am <= max_alloc ->
+  (forall policy, 0 <= guaranteed_cpu_request policy pods <= max_amount) ->
+  forall s o, pinv Rmax Ac Am s -> pop_ok Rmax Ac Am o -> pinv Rmax Ac Am (fst (pstep pods s o)).
+Proof. exact pstep_inv. Qed.
+Print Assumptions C19_pipeline_invariant_step.
+
+(* every emitted event is within [0, largest sample in the queue] *)
+Theorem C19_event_at_most_largest_recent_sample : forall pods Rmax Ac Am,
+  0 <= Rmax <= 100 -> 0 <= Ac <= max_alloc -> 0 <= Am <= max_alloc ->
+  forall s fail ev, pinv Rmax Ac Am s -> o_ev (snd (pstep pods s (PReport fail))) = Some ev ->
+  0 <= fst ev <= lmax (map fst (c_queue (ps_c s))) /\ 0 <= snd ev <= lmax (map snd (c_queue (ps_c s))).
+Proof. exact pstep_event_le_max_sample. Qed.
+Print Assumptions C19_event_at_most_largest_recent_sample.
+
+(* a report handled (active handler, over-subscription node, no API failure):
+   the node now shows exactly the event, or -- never on a forced re-sync -- it
+   was left alone because the event is within 10% of what it shows; then the
+   node shows at most 10/9 of the event *)
+Theorem C19_node_after_handled_report : forall pods Rmax Ac Am,
+  0 <= Rmax <= 100 -> 0 <= Ac <= max_alloc -> 0 <= Am <= max_alloc ->
+  (forall policy, 0 <= guaranteed_cpu_request policy pods <= max_amount) ->
+  forall s, pinv Rmax Ac Am s ->
+  o_handled (snd (pstep pods s (PReport 0))) = true -> label_on (n_label (ps_n s)) = true ->
+  let s' := fst (pstep pods s (PReport 0)) in
+  exists ev, o_ev (snd (pstep pods s (PReport 0))) = Some ev /\
+    0 <= fst ev <= NBc Rmax Ac /\ 0 <= snd ev <= NBm Rmax Am /\
+    (cur_of (ps_n s') = ev \/
+     (ps_n s' = ps_n s /\ (r_times (ps_r s) + 1) mod re_sync_period <> 0 /\
+      close1 (fst (cur_of (ps_n s))) (fst ev) = true /\ close1 (snd (cur_of (ps_n s))) (snd ev) = true /\
+      9 * fst (cur_of (ps_n s')) <= 10 * fst ev /\ 9 * snd (cur_of (ps_n s')) <= 10 * snd ev)).
+Proof. exact pstep_report_close. Qed.
+Print Assumptions C19_node_after_handled_report.
+
+(* every 6th handled report is written whatever the threshold says: a stale
+   amount survives at most 5 consecutive handled reports *)
+Theorem C19_node_forced_resync : forall pods s,
+  o_handled (snd (pstep pods s (PReport 0))) = true -> label_on (n_label (ps_n s)) = true ->
+  (r_times (ps_r s) + 1) mod re_sync_period = 0 ->
+  exists ev, o_ev (snd (pstep pods s (PReport 0))) = Some ev /\
+             cur_of (ps_n (fst (pstep pods s (PReport 0)))) = ev.
+Proof. exact pstep_report_forced. Qed.
+Print Assumptions C19_node_forced_resync.
+
+(* zero for switched-off types ON THE NODE after the next handled report (the
+   threshold never keeps a positive amount against a zero event) *)
+Theorem C19_node_zero_for_switched_off_types : forall pods Rmax Ac Am,
+  0 <= Rmax <= 100 -> 0 <= Ac <= max_alloc -> 0 <= Am <= max_alloc ->
+  (forall policy, 0 <= guaranteed_cpu_request policy pods <= max_amount) ->
+  forall s, pinv Rmax Ac Am s ->
+  o_handled (snd (pstep pods s (PReport 0))) = true -> label_on (n_label (ps_n s)) = true ->
+  let ty := effective_types (c_types (ps_c s)) (n_annot (ps_n s)) in
+  let n' := ps_n (fst (pstep pods s (PReport 0))) in
+  (has_type 1 ty = false -> fst (cur_of n') = 0) /\ (has_type 2 ty = false -> snd (cur_of n') = 0).
+Proof. exact pstep_report_switched_off. Qed.
+Print Assumptions C19_node_zero_for_switched_off_types.
+
+(* the threshold on integers: not exceeding means within 10%, which bounds the
+   node by 10/9 of the event from above and 10/11 from below *)
+Theorem C19_threshold_within_ten_percent : forall c e,
+  0 <= c <= max_amount -> 0 <= e <= max_amount -> exceeds c e = false ->
+  close1 c e = true /\ 9 * c <= 10 * e /\ 10 * e <= 11 * c.
+Proof.
+  exact (fun c e Hc He H => conj (exceeds_false_close c e Hc He H)
+           (close1_bound c e (proj1 Hc) (exceeds_false_close c e Hc He H))).
+Qed.
+Print Assumptions C19_threshold_within_ten_percent.
+
+(* steps that do not report leave the reported amounts alone; a report that
+   the (inactive) handler does not get changes nothing at all *)
+Theorem C19_node_untouched_by_other_steps : forall pods s o,
+  match o with
+  | PReport _ | PReporterCfg _ _ _ => True
+  | _ => n_xcpu (ps_n (fst (pstep pods s o))) = n_xcpu (ps_n s) /\
+         n_xmem (ps_n (fst (pstep pods s o))) = n_xmem (ps_n s)
+  end.
+Proof. exact pstep_untouched. Qed.
+Print Assumptions C19_node_untouched_by_other_steps.
+
+Theorem C19_unhandled_report_changes_nothing : forall pods s fail,
+  o_handled (snd (pstep pods s (PReport fail))) = false -> fst (pstep pods s (PReport fail)) = s.
+Proof. exact pstep_unhandled. Qed.
+Print Assumptions C19_unhandled_report_changes_nothing.
+
+(* over-subscription switched off in the configuration (Cleanup succeeded):
+   nothing is reported any more, the node is no over-subscription node, the
+   handler is inactive *)
+Theorem C19_node_after_switch_off : forall r n node_enable fail r' n',
+  rrefresh r n false node_enable fail = (r', n', false) ->
+  cur_of n' = (0, 0) /\ label_on (n_label n') = false /\ r_active r' = false /\ r_enabled r' = false.
+Proof. exact rrefresh_disable. Qed.
+Print Assumptions C19_node_after_switch_off.
+
+Theorem C19_node_after_node_label_switch_off : forall r n fail r' n',
+  r_enabled r = true -> rrefresh r n true false fail = (r', n', false) ->
+  cur_of n' = (0, 0) /\ label_on (n_label n') = false /\ r_active r' = false.
+Proof. exact rrefresh_node_disable. Qed.
+Print Assumptions C19_node_after_node_label_switch_off.
+
+(* the literal statement "never more than ratio% of allocatable / than the
+   largest recent sample" is REFUTED for the node object by the update
+   threshold: ratio 60 -> node 600; restart with ratio 57 -> computed 570, the
+   node keeps 600.  Reproduced on the real code (corpus/C19/reporter.jsonl),
+   known finding C19-update-threshold-keeps-stale-larger-amount. *)
+Theorem C19_node_strict_refuted :
+  exists ops n0, let '(s, outs) := prun [] (pinit 60 n0) ops in
+    n_acpu (ps_n s) = 1000 /\ ps_ratio s = 57 /\ c_queue (ps_c s) = [(570, 570)] /\
+    n_xcpu (ps_n s) = Some 600 /\
+    law_node_strict (ps_ratio s) 1000 1000 (c_queue (ps_c s)) (n_xcpu (ps_n s)) (n_xmem (ps_n s)) = false.
+Proof. exact node_strict_refuted. Qed.
+Print Assumptions C19_node_strict_refuted.
+
 (* ---- non-vacuity ---- *)
 Definition ex_pods : list pod :=
   [ mkPod 1 4 0 None 1 500 1000 500 0 false;            (* offline *)
@@ -225,4 +363,24 @@ Proof.
   - reflexivity.
   - vm_compute. reflexivity.
   - eexists _, _. vm_compute. split; reflexivity.
+Qed.
+
+(* the pipeline invariant is satisfiable and a handled report both writes and
+   skips: 600 written, then 570 computed and skipped, a switched-off type is
+   zeroed at once, switching off removes the amounts *)
+Example C19_nonvacuous_pipeline :
+  let n0 := mkNode 1 1000 1000 None None None in
+  pinv 60 1000 1000 (pinit 60 n0) /\
+  map (fun on : pout * node => (o_handled (fst on), n_xcpu (snd on), n_xmem (snd on)))
+      (snd (prun [] (pinit 60 n0)
+             [PTypes 3 [1; 2]; PReporterCfg true true 0; PSample false false 1 0 0; PReport 0;
+              PSample false false 1 50 50; PReport 0; PTypes 3 [1]; PReport 0;
+              PReporterCfg false true 0])) =
+    [(false, None, None); (false, None, None); (false, None, None); (true, Some 600, Some 600);
+     (false, Some 600, Some 600); (true, Some 600, Some 600); (false, Some 600, Some 600);
+     (true, Some 580, Some 0); (false, None, None)].
+Proof.
+  split.
+  - apply pinv_init; cbn; try lia. unfold node_bounded; cbn; auto.
+  - vm_compute. reflexivity.
 Qed.
